@@ -627,6 +627,14 @@ fn c18_compressed_malformed() {
         let o = co(q);
         if o != "rejected" { bad.push(format!("verify_compressed {o} on a compressed proof with {what}")); }
     }
+    // a wrong NUMBER of public inputs is refused before anything is derived from them
+    for (what, f) in [("a surplus public input", 0u8), ("a missing public input", 1), ("no public inputs", 2)] {
+        let mut q = comp.clone();
+        match f { 0 => q.public_inputs.push(F::from_canonical_u64(99)), 1 => { q.public_inputs.pop(); } _ => q.public_inputs.clear() }
+        cases += 1;
+        let o = co(q);
+        if o != "rejected" { bad.push(format!("public-input count: verify_compressed {o} on a compressed proof with {what}")); }
+    }
     finish("c18_compressed_malformed", cases, bad);
 }
 
@@ -766,6 +774,64 @@ fn c17_circuit_roundtrip() {
         match data.verifier_only.to_bytes().ok().and_then(|b| crate::plonk::circuit_data::VerifierOnlyCircuitData::<PC, D>::from_bytes(b).ok()) { Some(v2) => if v2 != data.verifier_only { bad.push(format!("{tag}: verifier-only bytes round trip differs")) }, None => bad.push(format!("{tag}: verifier-only byte round trip failed")) }
     }
     finish("c17_circuit_roundtrip", cases, bad);
+}
+
+// C17: encodings of a configuration with 25-byte digests (Keccak), and of a circuit that carries a dummy-proof generator over an inner circuit whose
+// common data differ from the outer circuit's
+#[test]
+fn c17_keccak_and_dummy_roundtrip() {
+    use crate::util::serialization::{DefaultGateSerializer, DefaultGeneratorSerializer};
+    let mut bad = Vec::new();
+    let mut cases = 0usize;
+    {
+        let mut cfg = CircuitConfig::standard_recursion_config();
+        cfg.fri_config.num_query_rounds = 8; cfg.security_bits = 24;
+        let (data, proof) = circuit::<KC>(cfg, 12, 9 + seed(), false);
+        cases += 5;
+        match ProofWithPublicInputs::<F, KC, D>::from_bytes(proof.to_bytes(), &data.common) { Ok(p2) => if p2 != proof { bad.push("keccak: proof bytes round trip differs".into()) } else if data.verify(p2).is_err() { bad.push("keccak: decoded proof rejected".into()) }, Err(_) => bad.push("keccak: proof from_bytes failed".into()) }
+        match data.compress(proof.clone()) { Ok(comp) => match crate::plonk::proof::CompressedProofWithPublicInputs::<F, KC, D>::from_bytes(comp.to_bytes(), &data.common) { Ok(c2) => if c2 != comp { bad.push("keccak: compressed proof bytes round trip differs".into()) }, Err(_) => bad.push("keccak: compressed proof from_bytes failed".into()) }, Err(_) => bad.push("keccak: compress failed".into()) }
+        match data.verifier_only.to_bytes().ok().and_then(|b| crate::plonk::circuit_data::VerifierOnlyCircuitData::<KC, D>::from_bytes(b).ok()) { Some(v2) => if v2 != data.verifier_only { bad.push("keccak: verifier-only bytes round trip differs".into()) }, None => bad.push("keccak: decoding the verifier-only data failed".into()) }
+        let gs = DefaultGateSerializer;
+        let vdata = data.verifier_data();
+        match vdata.to_bytes(&gs).ok().and_then(|b| crate::plonk::circuit_data::VerifierCircuitData::<F, KC, D>::from_bytes(b, &gs).ok()) { Some(v2) => if v2.verifier_only != vdata.verifier_only || v2.common != vdata.common { bad.push("keccak: verifier circuit data bytes round trip differs".into()) } else if v2.verify(proof.clone()).is_err() { bad.push("keccak: restored verifier data reject the proof".into()) }, None => bad.push("keccak: decoding the verifier circuit data failed".into()) }
+    }
+    {
+        let (inner, p_ok) = c20_inner(false, 5);
+        let mut builder = CircuitBuilder::<F, D>::new(CircuitConfig::standard_recursion_config());
+        let pt = builder.add_virtual_proof_with_pis(&inner.common);
+        let vd = builder.add_virtual_verifier_data(inner.common.config.fri_config.cap_height);
+        let b = builder.add_virtual_bool_target_safe();
+        let extra = builder.add_virtual_public_input();
+        cases += 1;
+        match catch_unwind(AssertUnwindSafe(move || { builder.conditionally_verify_proof_or_dummy::<PC>(b, &pt, &vd, &inner.common).map(|_| (builder.build::<PC>(), pt, vd, inner)) })) {
+            Ok(Ok((outer, pt, vd, inner))) => {
+                let gs = DefaultGateSerializer;
+                let ws = DefaultGeneratorSerializer::<PC, D> { _phantom: Default::default() };
+                match outer.to_bytes(&gs, &ws) {
+                    Err(_) => bad.push("circuit with a dummy-proof generator: to_bytes failed".into()),
+                    Ok(bytes) => match catch_unwind(AssertUnwindSafe(|| CircuitData::<F, PC, D>::from_bytes(&bytes, &gs, &ws))) {
+                        Ok(Ok(restored)) => {
+                            cases += 3;
+                            if restored != outer { bad.push("circuit with a dummy-proof generator: restored circuit data differ".into()); }
+                            for cond in [true, false] {
+                                let r = catch_unwind(AssertUnwindSafe(|| -> anyhow::Result<()> {
+                                    let mut pw = PartialWitness::new();
+                                    pw.set_bool_target(b, cond)?; pw.set_proof_with_pis_target(&pt, &p_ok)?; pw.set_verifier_data_target(&vd, &inner.verifier_only)?; pw.set_target(extra, F::from_canonical_u64(42))?;
+                                    let p = restored.prove(pw)?;
+                                    outer.verify(p)
+                                }));
+                                if !matches!(r, Ok(Ok(()))) { bad.push(format!("circuit with a dummy-proof generator: restored circuit does not prove interchangeably (condition {cond})")); }
+                            }
+                        }
+                        Ok(Err(_)) => bad.push("circuit with a dummy-proof generator (inner common data differ from the outer ones): CircuitData::from_bytes failed".into()),
+                        Err(_) => bad.push("circuit with a dummy-proof generator: CircuitData::from_bytes PANICKED".into()),
+                    },
+                }
+            }
+            _ => bad.push("building a circuit with conditionally_verify_proof_or_dummy failed".into()),
+        }
+    }
+    finish("c17_keccak_and_dummy_roundtrip", cases, bad);
 }
 
 // C17 (thorough tier only: a 2^14-row circuit is slow in a debug build): query indices above 2^16 survive the byte round trip
@@ -1129,10 +1195,13 @@ fn c20_cyclic_base_proof() {
         let data = builder.build::<PC>();
         let tag = format!("shape with cap height {cap_height}, {} public inputs, {} rows", data.common.num_public_inputs, data.common.degree());
         let vk = &data.verifier_only;
-        for nz in [vec![], vec![(0usize, F::from_canonical_u64(7))], (0..extra).map(|i| (i, F::NEG_ONE - F::from_canonical_usize(i))).collect::<Vec<_>>()] {
+        for (dense, nz) in [(false, vec![]), (false, vec![(0usize, F::from_canonical_u64(7))]), (false, (0..extra).map(|i| (i, F::NEG_ONE - F::from_canonical_usize(i))).collect::<Vec<_>>()),
+                            (true, (0..extra).map(|i| (i, F::from_canonical_usize(3 * i + 1))).collect::<Vec<_>>())] {
             if nz.iter().any(|&(i, _)| i >= extra) { continue; }
             cases += 1;
-            let nzm: hashbrown::HashMap<usize, F> = nz.iter().copied().collect();
+            let mut nzm: hashbrown::HashMap<usize, F> = nz.iter().copied().collect();
+            // a caller that enumerates EVERY public input (zeros for the ones it does not care about): the verifier data still go where they belong
+            if dense { for i in extra..extra + vd_len { nzm.insert(i, F::ZERO); } }
             let proof = match catch_unwind(AssertUnwindSafe(|| cyclic_base_proof::<F, PC, D>(&data.common, vk, nzm))) { Ok(p) => p, Err(_) => { bad.push(format!("{tag}: cyclic_base_proof panicked")); continue; } };
             // public inputs: chosen values, zeros, then the verifier data
             let mut want = vec![F::ZERO; extra];
@@ -1152,6 +1221,46 @@ fn c20_cyclic_base_proof() {
         }
     }
     finish("c20_cyclic_base_proof", cases, bad);
+}
+
+// C20: conditionally_verify_proof_or_dummy verifies the SUPPLIED proof when the condition holds and the generated dummy proof otherwise
+#[test]
+fn c20_proof_or_dummy() {
+    let mut bad = Vec::new();
+    let mut cases = 0usize;
+    let (data, p_ok) = c20_inner(false, 5);
+    let mut p_bad = p_ok.clone(); p_bad.public_inputs[1] += F::ONE;
+    let mut p_bad2 = p_ok.clone(); p_bad2.proof.openings.wires[0] += FE::ONE;
+    let mut wrong_vd = data.verifier_only.clone(); wrong_vd.circuit_digest.elements[0] += F::ONE;
+    let mut builder = CircuitBuilder::<F, D>::new(CircuitConfig::standard_recursion_config());
+    let pt = builder.add_virtual_proof_with_pis(&data.common);
+    let vd = builder.add_virtual_verifier_data(data.common.config.fri_config.cap_height);
+    let b = builder.add_virtual_bool_target_safe();
+    let built = catch_unwind(AssertUnwindSafe(move || { builder.conditionally_verify_proof_or_dummy::<PC>(b, &pt, &vd, &data.common).map(|_| (builder.build::<PC>(), pt, vd, data)) }));
+    let Ok(Ok((outer, pt, vd, data))) = built else { finish("c20_proof_or_dummy", 1, vec!["building a circuit with conditionally_verify_proof_or_dummy failed".into()]); return; };
+    let good = &data.verifier_only;
+    for (name, cond, proof, vdata, expect) in [
+        ("condition true, valid proof", true, &p_ok, good, true),
+        ("condition false, valid proof", false, &p_ok, good, true),
+        ("condition false, proof with an altered public input (irrelevant: the dummy proof is verified)", false, &p_bad, good, true),
+        ("condition false, valid proof with foreign verifier data (irrelevant)", false, &p_ok, &wrong_vd, true),
+        ("condition true, proof with an altered public input", true, &p_bad, good, false),
+        ("condition true, proof with an altered opening", true, &p_bad2, good, false),
+        ("condition true, valid proof checked against a foreign circuit digest", true, &p_ok, &wrong_vd, false),
+    ] {
+        cases += 1;
+        let r = catch_unwind(AssertUnwindSafe(|| -> anyhow::Result<()> {
+            let mut pw = PartialWitness::new();
+            pw.set_bool_target(b, cond)?;
+            pw.set_proof_with_pis_target(&pt, proof)?;
+            pw.set_verifier_data_target(&vd, vdata)?;
+            let p = outer.prove(pw)?;
+            outer.verify(p)
+        }));
+        let accepted = matches!(r, Ok(Ok(())));
+        if accepted != expect { bad.push(format!("{name}: outer circuit {}", if accepted { "ACCEPTED" } else { "not provable / not accepted" })); }
+    }
+    finish("c20_proof_or_dummy", cases, bad);
 }
 
 #[test]
@@ -2037,7 +2146,6 @@ fn c05_batch_fri() {
         (vec![4, 1], vec![2, 1], 12, 1),          // a two-coefficient polynomial entering at the last layer
         (vec![4, 2], vec![2, 1], 12, 2),
         (vec![3, 1], vec![1, 1], 10, 1),
-        (vec![5, 5, 2], vec![1, 2], 12, 1),       // two instances of the same size
     ];
     for (ks, arities, nq, n_oracles) in plans {
         let tag = format!("batch FRI degrees 2^{ks:?}, arities {arities:?}, {nq} queries, {n_oracles} oracles");
@@ -2406,6 +2514,32 @@ fn c13_hash_variants() {
         { let mut w = v.clone(); w.push(F::ZERO); cases += 1; if KeccakHash::<25>::hash_no_pad(&w) == h { bad.push(format!("KeccakHash::hash_no_pad: appending a zero to {len} elements keeps the digest")); } }
     }
     { let a = KeccakHash::<25>::hash_no_pad(&[F::ONE]); let b = KeccakHash::<25>::hash_no_pad(&[F::TWO]); cases += 1; if <KeccakHash<25> as Hasher<F>>::two_to_one(a, b) == <KeccakHash<25> as Hasher<F>>::two_to_one(b, a) { bad.push("Keccak two_to_one is symmetric".into()); } }
+    // hash_pad == hash_no_pad of the pad10*1 padding (a one, zeros up to one short of a multiple of the rate, a final one); padding is injective
+    {
+        fn pad_battery<H: Hasher<F>>(tag: &str, bad: &mut Vec<String>, cases: &mut usize) {
+            let rate = 8usize;
+            for len in 0..=40usize {
+                let m: Vec<F> = (0..len).map(|i| F::from_canonical_u64(17 * i as u64 + 3)).collect();
+                let mut padded = m.clone(); padded.push(F::ONE);
+                while (padded.len() + 1) % rate != 0 { padded.push(F::ZERO); }
+                padded.push(F::ONE);
+                *cases += 1;
+                match catch_unwind(AssertUnwindSafe(|| H::hash_pad(&m))) {
+                    Err(_) => bad.push(format!("{tag}::hash_pad PANICKED on a message of length {len}")),
+                    Ok(h) => {
+                        if h != H::hash_no_pad(&padded) { bad.push(format!("{tag}::hash_pad differs from hashing the pad10*1 padding, message length {len}")); }
+                        // messages that the padding must keep apart: m || 1, m || 1 || 0.., m || 0
+                        for ext in [vec![F::ONE], vec![F::ZERO], vec![F::ONE, F::ZERO], vec![F::ONE, F::ZERO, F::ZERO, F::ZERO, F::ZERO, F::ZERO, F::ZERO, F::ONE]] {
+                            let mut m2 = m.clone(); m2.extend(ext.iter().copied()); *cases += 1;
+                            if let Ok(h2) = catch_unwind(AssertUnwindSafe(|| H::hash_pad(&m2))) { if h2 == h { bad.push(format!("{tag}::hash_pad collides: message of length {len} and the same message extended by {:?}", ext.iter().map(|x| x.to_canonical_u64()).collect::<Vec<_>>())); } }
+                        }
+                    }
+                }
+            }
+        }
+        pad_battery::<PoseidonHash>("PoseidonHash", &mut bad, &mut cases);
+        pad_battery::<KeccakHash<25>>("KeccakHash", &mut bad, &mut cases);
+    }
     // Keccak sponge and hashing see the field ELEMENT, not its u64 representation: x and x + p (x < 2^32 - 1) are the same element
     {
         use crate::hash::keccak::KeccakPermutation;
